@@ -204,6 +204,8 @@ class Unit:
         body_text = s.text[s.tok(f['body_open'])[3]:s.tok(f['body_close'])[2]]
         base_line = s.line_of(s.tok(f['body_open'])[3])
         b = Body(body_text, base_line)
+        if 'R7' in allowed:
+            b.r7_option_combinators()
         b.r4_logging()
         b.r2_assert()
         b.r3_panic_closure()
